@@ -6,6 +6,11 @@ Case kinds (all JSON):
       and the emitted record is torn / extended / bit-flipped; every outcome is recorded.
   {"kind": "raw", "data": hex}            arbitrary bytes handed to Row.from_bytes (garbage payloads, foreign encodings)
   {"kind": "cap", "delta": int}           one binary cell sized so that the payload is MAXIMUM_RECORD_SIZE + delta bytes
+  {"kind": "sched", "a": {"ts": int, "row": [tree..]}, "b": {"ts": int, "row": [tree..]}}
+      two threads: thread A serialises and decodes row a and is preempted before each bytecode instruction (each
+      line, if instruction events are unavailable) executed in any orso/*.py frame - one forced switch per run, for
+      every such point, plus one run switching at all of them -; at each switch a second real thread serialises and
+      decodes row b from start to finish.  Every record either thread gets back is recorded.
 Value trees: ["n"] | ["b", bool] | ["i", int] | ["f", bits:int] | ["s", hex-utf8 | {"rep": [byte, n]}] | ["y", hex | {"rep": ..}]
              | ["a", [tree..]] | ["m", [[key-hex, tree]..]]
 """
@@ -28,18 +33,26 @@ LEVEL_TEXT = ("Machine-checked Coq theorems over an executable model of Row.as_b
               "the real encoder and decoder on generated rows (all value kinds, format-boundary lengths and integers, NaN/inf/-0.0 bit patterns, "
               "depth <= 4 and the nesting limits), on every tear point / random suffix / each single-bit change of bytes 0..5 of each record, "
               "and on garbage and foreign-encoded payloads, and evaluating the model on the same inputs inside Coq (bytes and values compared); "
-              "a direct property oracle on the implementation supplies replayable failing inputs.")
+              "a direct property oracle on the implementation supplies replayable failing inputs. Every schedule: as_bytes is also modelled "
+              "statement by statement on an interleaving machine with a shared module-state component, and it is proved that under every "
+              "interleaving of any number of threads each thread gets exactly the sequential result (so all theorems apply to every record "
+              "emitted under every schedule); the step model is tied to the code by forcing, with real threads, one thread switch before each "
+              "bytecode instruction of as_bytes / from_bytes / Row.__new__ while a second thread encodes and decodes another row, and comparing "
+              "every record both threads get back with the model in Coq.")
 LEVEL_NOTE = ("Trusted: Coq kernel + vm_compute; the hand-written msgpack reader/writer model (ormsgpack itself is Rust: validated byte-for-byte "
               "by the correspondence, not verified); the Python object <-> value-tree mapping of the harness (tuples become lists, dict = "
               "insertion-ordered association list, floats by their 64 bits); time.time_ns() is an input. compiled.pyx cannot be rebuilt: its "
               "literals are read from the .pyx text, its behaviour from the shipped .so. Not modelled: datetime.fromtimestamp range errors "
               "(cases skipped and counted), payloads above a few hundred kB are checked by the oracle only (cap boundary via the size_ok stream). "
-              "No axioms (Print Assumptions: closed).")
+              "Schedules: the division of as_bytes into atomic steps that touch no module-level state is a modelling statement, validated by the "
+              "forced-preemption runs (two threads, one switch per run at every instruction boundary inside orso/*.py frames plus one run switching "
+              "at all of them; switches inside C calls - packb, the compiled decoder - cannot be forced and are not explored; more than one "
+              "independent switch per run only in the switch-at-every-point form). No axioms (Print Assumptions: closed).")
 DESIGN_REF = "DESIGN.md section 8, C01"
-COQ_IMPORTS = "From Orso Require Import Model.C01."
-COQ_CHECKS = {"row": "c01_check_row", "raw": "c01_check_raw", "cap": "c01_check_cap"}
-COQ_SHOW = {"row": "c01_show_row", "raw": "c01_show_raw", "cap": "c01_show_cap"}
-MODEL_VOS = ["Model/C01.vo"]
+COQ_IMPORTS = "From Orso Require Import Model.C01 Model.C01_Sched."
+COQ_CHECKS = {"row": "c01_check_row", "raw": "c01_check_raw", "cap": "c01_check_cap", "sched": "c01_check_sched"}
+COQ_SHOW = {"row": "c01_show_row", "raw": "c01_show_raw", "cap": "c01_show_cap", "sched": "c01_show_sched"}
+MODEL_VOS = ["Model/C01.vo", "Model/C01_Sched.vo"]
 
 
 # --------------------------------------------------------------------------------------
@@ -146,8 +159,75 @@ def _pyx_literals(repo):
     return {"header_size": int(hs), "off0": int(off0), "mask": int(mask, 0), "version": int(ver, 0), "fields": fields, "tag": tag}
 
 
+def _shared_state_written_by_as_bytes(source):
+    """Structural fallback, used only when Row.as_bytes cannot be stopped between instructions (not a Python-level
+    function): names bound at module level to anything not known to be immutable that the body of as_bytes mentions.
+    Conservative: a mention is enough.  Raises when the source cannot be analysed (fail closed)."""
+    import ast
+
+    tree = ast.parse(source)
+
+    def immutable(v):
+        if isinstance(v, ast.Constant):
+            return True
+        if isinstance(v, ast.Tuple):
+            return all(immutable(e) for e in v.elts)
+        if isinstance(v, (ast.BinOp,)):
+            return immutable(v.left) and immutable(v.right)
+        if isinstance(v, ast.UnaryOp):
+            return immutable(v.operand)
+        if isinstance(v, ast.Call) and isinstance(v.func, ast.Name) and v.func.id in ("bytes", "int", "float", "str", "bool", "frozenset", "tuple"):
+            return all(immutable(a) for a in v.args) and not v.keywords
+        return False
+
+    mutable = set()
+    for node in tree.body:
+        targets, value = [], None
+        if isinstance(node, ast.Assign):
+            targets, value = node.targets, node.value
+        elif isinstance(node, (ast.AnnAssign, ast.AugAssign)):
+            targets, value = [node.target], node.value
+        for t in targets:
+            for n in ast.walk(t):
+                if isinstance(n, ast.Name) and (value is None or not immutable(value) or isinstance(node, ast.AugAssign)):
+                    mutable.add(n.id)
+    fns = [f for c in tree.body if isinstance(c, ast.ClassDef) and c.name == "Row"
+           for f in c.body if isinstance(f, (ast.FunctionDef, ast.AsyncFunctionDef)) and f.name == "as_bytes"]
+    if len(fns) != 1:
+        raise RuntimeError("structural check: expected exactly one Row.as_bytes in the source, found %d" % len(fns))
+    hits = set()
+    for n in ast.walk(fns[0]):
+        if isinstance(n, ast.Name) and n.id in mutable:
+            hits.add(n.id)
+        if isinstance(n, (ast.Global, ast.Nonlocal)):
+            hits.update(n.names)
+    return sorted(hits)
+
+
+def _schedule_guard(repo):
+    """C01 must hold for every schedule.  A Python-level as_bytes is explored dynamically (schedule cases); anything
+    else gets the structural check, fail closed."""
+    import importlib
+    import os
+
+    if _as_bytes_function() is not None:
+        return "python-level"
+    row = importlib.import_module("orso.row")
+    base = os.path.splitext(getattr(row, "__file__", "") or "")[0].split(".cpython")[0]
+    for ext in (".py", ".pyx"):
+        if os.path.exists(base + ext):
+            hits = _shared_state_written_by_as_bytes(open(base + ext).read())
+            if hits:
+                raise RuntimeError("Row.as_bytes is not a Python-level function (no schedule exploration possible) and its source mentions "
+                                   "module-level objects that are not known to be immutable: " + ", ".join(hits))
+            return "structural"
+    raise RuntimeError("Row.as_bytes is not a Python-level function and no source was found for the structural shared-state check")
+
+
 def gen(repo):
     import importlib
+
+    _schedule_guard(repo)
 
     row = importlib.import_module("orso.row")
     hs, hp, cap = row.HEADER_SIZE, row.HEADER_PREFIX, row.MAXIMUM_RECORD_SIZE
@@ -200,7 +280,9 @@ RULE = ("rows are generated as typed value trees (nil, bool, int, float-by-bits,
         "corpus of every integer / length format boundary, NaN/inf/-0.0 patterns and the nesting limits) and run through the real "
         "Row.as_bytes with time.time_ns pinned, Row.from_bytes, and from_bytes on every tear point (sampled for records > 2000 bytes), "
         "random suffixes and every single-bit change of bytes 0..5; raw cases hand from_bytes arbitrary bytes (foreign msgpack encodings, "
-        "mutated payloads, random garbage, header variants). A case is non-trivial when the encoder emitted a record of a non-empty row "
+        "mutated payloads, random garbage, header variants); schedule cases take two rows and two clock readings and force every "
+        "single thread switch (instruction granularity) of one thread's as_bytes + from_bytes in favour of a second thread doing the same on the other row. "
+        "A case is non-trivial when the encoder emitted a record of a non-empty row "
         "(row cases) or the header checks passed (raw cases); distinct by canonical JSON of the case")
 TRUSTED = [
     "C01 model (coq/Model/C01.v): msgpack writer with ormsgpack's format choices, reader accepting every msgpack format, "
@@ -208,9 +290,12 @@ TRUSTED = [
     "modelled, not verified: ormsgpack (Rust); the Python object <-> value tree mapping (tuple -> list, dict -> ordered association list, "
     "repeated keys first-position/last-value); C int promotion in the record_size expression (wrap to 32 bits, sign-extend)",
     "coq/Gen/C01_RowFmt.v regenerated from orso.row, the text of compiled.pyx and ormsgpack's measured nesting limits on every run",
+    "C01 schedule model (coq/Model/C01_Sched.v): as_bytes as five atomic steps over (module state, frame); validated by forced thread switches "
+    "(sys.settrace instruction events, CPython 3.12) - the harness's tracer and its thread hand-over are trusted",
 ]
 ASSUMPTIONS = [
-    "time.time_ns() is an input of the model (pinned by the harness)",
+    "time.time_ns() is an input of the model (pinned by the harness; per thread in schedule cases)",
+    "thread switches happen between bytecode instructions of Python-level code (the GIL); C calls made by as_bytes are atomic steps of the schedule model",
     "rows are given in list form (tuples inside a row come back as lists); the reserved top-level form ['__datetime__', x] is excluded from the round-trip claim",
     "values nested deeper than ormsgpack's encoder limit (measured, in Gen) are refused by as_bytes with TypeError and are outside the round-trip claim",
 ]
@@ -464,6 +549,8 @@ def observe(case):
         return {"dec": out}
     if kind == "cap":
         return _observe_cap(case)
+    if kind == "sched":
+        return _observe_sched(case)
     row_obj = [_to_py(t) for t in case["row"]]
     try:
         rec = _encode(row_obj, case["ts"])
@@ -518,15 +605,244 @@ def _observe_cap(case):
 
 
 # --------------------------------------------------------------------------------------
+# schedules: a deterministic single-preemption explorer over real threads
+# --------------------------------------------------------------------------------------
+class _ThreadClock:
+    """time.time_ns() answers with the reading assigned to the calling thread."""
+
+    def __init__(self, real, default):
+        self._real, self._default, self._by_thread = real, default, {}
+
+    def assign(self, ts):
+        import threading
+
+        self._by_thread[threading.get_ident()] = ts
+
+    def time_ns(self):
+        import threading
+
+        return self._by_thread.get(threading.get_ident(), self._default)
+
+    def __getattr__(self, name):
+        return getattr(self._real, name)
+
+
+def _orso_dir():
+    import os
+
+    import orso
+
+    return os.path.dirname(os.path.abspath(orso.__file__)) + os.sep
+
+
+def _as_bytes_function():
+    """the Python-level function behind Row.as_bytes, or None when it is not one (compiled / builtin)"""
+    import types
+
+    from orso.row import Row
+
+    d = Row.__dict__.get("as_bytes")
+    f = getattr(d, "fget", None) or getattr(d, "func", None) or d
+    return f if isinstance(f, types.FunctionType) else None
+
+
+def _roundtrip_op(row_obj, ts, clock):
+    """what one thread does: serialise its row, decode the record it got back"""
+    import orso.row as R
+
+    clock.assign(ts)
+    try:
+        rec = R.Row(tuple(row_obj)).as_bytes
+    except Exception as e:  # noqa: BLE001
+        return [["raise", _cls(e)], None]
+    if type(rec) is not bytes:
+        return [["raise", "Other:not-bytes"], None]
+    out, vals = _decode(rec)
+    if vals is not None and len(vals) == len(row_obj) and all(_strict_eq(a, b) for a, b in zip(row_obj, vals)):
+        out = ["ok-same"]
+    return [["ok", _spec(rec)], out]
+
+
+class _Preempter:
+    """Runs opA in the calling thread under sys.settrace and, at chosen instruction (or line) boundaries inside
+    frames whose code lives in the orso package, blocks it while a second real thread runs opB to completion."""
+
+    def __init__(self, op_b):
+        import threading
+
+        self.op_b = op_b
+        self.go, self.done = threading.Event(), threading.Event()
+        self.stop = False
+        self.b_results = []
+        self.dir = _orso_dir()
+        self.inside = {}
+        self.t = threading.Thread(target=self._worker, daemon=True)
+        self.t.start()
+
+    def _worker(self):
+        while True:
+            self.go.wait()
+            self.go.clear()
+            if self.stop:
+                return
+            try:
+                self.b_results.append(self.op_b())
+            except BaseException as e:  # noqa: BLE001
+                self.b_results.append([["raise", "Other:harness:" + type(e).__name__], None])
+            self.done.set()
+
+    def _hand_over(self):
+        self.go.set()
+        if not self.done.wait(60):
+            raise RuntimeError("the preempting thread did not finish")
+        self.done.clear()
+
+    def close(self):
+        self.stop = True
+        self.go.set()
+        self.t.join(10)
+
+    def run(self, op_a, level, target):
+        """target: None (count the points), an index k (switch before the k-th event), "all" (switch at every one).
+        -> (result of op_a, [labels of the events seen], number of switches made)"""
+        import os
+
+        event_name = "opcode" if level == "opcode" else "line"
+        labels = []
+        switches = [0]
+
+        def local(frame, event, arg):
+            if event == event_name:
+                k = len(labels)
+                labels.append("%s:line %d%s" % (frame.f_code.co_name, frame.f_lineno,
+                                                (":offset %d" % frame.f_lasti) if level == "opcode" else ""))
+                if target == "all" or target == k:
+                    switches[0] += 1
+                    self._hand_over()
+            return local
+
+        def glob(frame, event, arg):
+            fn = frame.f_code.co_filename
+            inside = self.inside.get(fn)
+            if inside is None:
+                inside = self.inside[fn] = os.path.abspath(fn).startswith(self.dir)
+            if inside:
+                if level == "opcode":
+                    frame.f_trace_opcodes = True
+                    frame.f_trace_lines = False
+                return local
+            return None
+
+        old = sys.gettrace()
+        sys.settrace(glob)
+        try:
+            res = op_a()
+        finally:
+            sys.settrace(old)
+        return res, labels, switches[0]
+
+
+SCHED_MAX_POINTS = 400
+
+
+def _observe_sched(case):
+    import orso.row as R
+
+    row_a = [_to_py(t) for t in case["a"]["row"]]
+    row_b = [_to_py(t) for t in case["b"]["row"]]
+    real = R.time
+    clock = _ThreadClock(real, TS_DEFAULT)
+    R.time = clock
+    pre = _Preempter(lambda: _roundtrip_op(row_b, case["b"]["ts"], clock))
+    try:
+        op_a = lambda: _roundtrip_op(row_a, case["a"]["ts"], clock)  # noqa: E731
+        solo_a = op_a()
+        solo_b = pre.op_b()
+        level, labels = None, []
+        for lv in ("opcode", "line"):
+            for _ in range(3):       # CPython 3.12 delivers no instruction events on the first traced call of a code object
+                _, labels, _ = pre.run(op_a, lv, None)
+                if labels:
+                    break
+            if labels:
+                level = lv
+                break
+        obs = {"python_level": _as_bytes_function() is not None, "level": level, "points": len(labels),
+               "in_as_bytes": sum(1 for x in labels if x.startswith("as_bytes:")), "solo": {"a": solo_a, "b": solo_b}}
+        seen_a, seen_b = [[solo_a, "no switch"]], [[solo_b, "no switch"]]
+
+        def note(seen, res, label):
+            if all(res != r for r, _ in seen):
+                seen.append([res, label])
+
+        missed = 0
+        n = min(len(labels), SCHED_MAX_POINTS)
+        for k in list(range(n)) + (["all"] if n else []):
+            before = len(pre.b_results)
+            res, lab2, sw = pre.run(op_a, level, k)
+            if k != "all" and sw != 1:
+                missed += 1
+            label = "one switch before " + labels[k] if k != "all" else "a switch before every one of the %d points" % len(lab2)
+            note(seen_a, res, label)
+            for r in pre.b_results[before:]:
+                note(seen_b, r, "second thread run while the first was stopped: " + label)
+        obs["missed"] = missed
+        obs["runs"] = n + (1 if n else 0)
+        obs["a_seen"], obs["b_seen"] = seen_a, seen_b
+        return obs
+    finally:
+        pre.close()
+        R.time = real
+
+
+# --------------------------------------------------------------------------------------
 # the property, read literally, on what the implementation did
 # --------------------------------------------------------------------------------------
 DE = ["raise", "DataError"]
+
+
+def _emit_verdict(row, enc, dec):
+    """round-trip part of the property for one serialise + decode of `row` (value trees)"""
+    in_domain = all(_in_value_domain(t) for t in row)
+    depth = 1 + max([_cdepth(t) for t in row] or [0])
+    deep = depth > 5 and depth > _limits()[0]
+    if enc[0] != "ok":
+        if not in_domain or deep:
+            return None
+        return f"as_bytes must serialise this row (all values in the msgpack-native domain), it raised {enc[1]}"
+    if in_domain and not any(_is_dt_form(t) for t in row):
+        if dec != ["ok-same"]:
+            return f"from_bytes(as_bytes(row)) must equal the row value for value (type-strict, NaN by bits); got {str(dec)[:300]}"
+    elif dec == DE:
+        return "every record the encoder emits must be accepted by the decoder, got DataError"
+    return None
+
+
+def _oracle_sched(case, obs):
+    if not obs["points"]:
+        if obs["python_level"]:
+            return "Row.as_bytes is a Python-level function but the harness could not stop it at any instruction or line boundary"
+        return None        # compiled encoder: gen() ran the structural check instead
+    if obs["missed"]:
+        return f"the harness failed to force {obs['missed']} of the {obs['runs']} planned thread switches (non-deterministic control flow?)"
+    for who, seen in (("a", obs["a_seen"]), ("b", obs["b_seen"])):
+        for (enc, dec), label in seen:
+            why = _emit_verdict(case[who]["row"], enc, dec)
+            if why is not None:
+                if enc[0] == "ok":
+                    rec = _unspec(enc[1])
+                    why += f" [record of {len(rec)} bytes, length field {int.from_bytes(rec[2:6], 'big')}, payload {len(rec) - 14}]"
+                return (f"the property must hold for every schedule of concurrent callers; with {label} "
+                        f"(the other thread working on row '{'b' if who == 'a' else 'a'}'), for row '{who}': {why}")
+    return None
 
 
 def oracle(case, obs):
     kind = case["kind"]
     if kind == "raw":
         return None          # nothing is claimed about foreign bytes; the model comparison covers them
+    if kind == "sched":
+        return _oracle_sched(case, obs)
     if kind == "cap":
         if case["delta"] <= 0:
             if obs["enc"][0] != "ok":
@@ -542,18 +858,12 @@ def oracle(case, obs):
             return "record extended by one byte must be rejected with DataError"
         return None
     row = case["row"]
-    in_domain = all(_in_value_domain(t) for t in row)
-    depth = 1 + max([_cdepth(t) for t in row] or [0])
-    deep = depth > 5 and depth > _limits()[0]
     if obs["enc"][0] != "ok":
-        if not in_domain or deep:
-            return None      # outside the value domain / beyond the serialiser's nesting limit: refusal is not a wrong record
-        return f"as_bytes must serialise this row (all values in the msgpack-native domain), it raised {obs['enc'][1]}"
-    if in_domain and not any(_is_dt_form(t) for t in row):
-        if obs["dec"] != ["ok-same"]:
-            return f"from_bytes(as_bytes(row)) must equal the row value for value (type-strict, NaN by bits); got {str(obs['dec'])[:300]}"
-    elif obs["dec"][0] == "raise" and obs["dec"] == DE:
-        return "every record the encoder emits must be accepted by the decoder, got DataError"
+        # outside the value domain / beyond the serialiser's nesting limit: refusal is not a wrong record
+        return _emit_verdict(row, obs["enc"], None)
+    why = _emit_verdict(row, obs["enc"], obs["dec"])
+    if why is not None:
+        return why
     if obs["tears"]["not_rejected"]:
         k, o = obs["tears"]["not_rejected"][0]
         return f"strict prefix of length {k} (of {obs['len']}) must be rejected with DataError, got {str(o)[:200]}"
@@ -675,6 +985,8 @@ def to_coq(case, obs):
     kind = case["kind"]
     if kind == "cap":
         return ("cap", "(%s, %s)" % (L.Z(obs["payload_len"]), L.boolean(obs["enc"][0] == "ok")))
+    if kind == "sched":
+        return _to_coq_sched(case, obs)
     if kind == "raw":
         data = _unspec(case["data"])
         lit = _coq_bytes(data)
@@ -722,6 +1034,30 @@ def to_coq(case, obs):
     return ("row", "((%s, %s, %s, %s, %s) : row_case)" % (ts, row_term, enc, dec, L.lst(muts)))
 
 
+def _coq_sched_obs(seen):
+    out = []
+    for (enc, dec), _ in seen[:4]:
+        if enc[0] != "ok":
+            out.append("(ERaise %s, OSame)" % _coq_exn(enc[1]))
+            continue
+        lit = _coq_bytes(_unspec(enc[1]))
+        oc = _coq_outcome(dec)
+        if lit is None or oc is None or len(oc) > OUTCOME_LIT_LIMIT:
+            return None
+        out.append("(EBytes %s, %s)" % (lit, oc))
+    return L.lst(out)
+
+
+def _to_coq_sched(case, obs):
+    if not obs["points"]:
+        return None
+    oa, ob = _coq_sched_obs(obs["a_seen"]), _coq_sched_obs(obs["b_seen"])
+    if oa is None or ob is None:
+        return None
+    rows = ["(%s : list mval)" % L.lst(_coq_val(t) for t in case[w]["row"]) for w in ("a", "b")]
+    return ("sched", "((%s, %s, (%s, %s), %s, %s) : sched_case)" % (L.N(case["a"]["ts"]), rows[0], L.N(case["b"]["ts"]), rows[1], oa, ob))
+
+
 def _model_skips_raw(data, obs):
     """datetime.fromtimestamp on a numeric argument can fail on range/NaN: not modelled."""
     if obs["dec"][0] != "raise" or obs["dec"][1] == "DataError" or len(data) < 14:
@@ -749,6 +1085,9 @@ def nontrivial_key(case, obs):
             return None
     elif case["kind"] == "raw":
         if obs["dec"] == DE:
+            return None
+    elif case["kind"] == "sched":
+        if not obs["points"] or obs["solo"]["a"][0][0] != "ok":
             return None
     return hashlib.sha1(json.dumps(case, sort_keys=True).encode()).hexdigest()
 
@@ -788,6 +1127,14 @@ def classify(case, obs):
     elif case["kind"] == "raw":
         yield "raw:" + case.get("how", "?").split(":")[0].split("=")[0]
         yield "raw-outcome:" + (obs["dec"][1] if obs["dec"][0] == "raise" else "ok")
+    elif case["kind"] == "sched":
+        yield "sched-level:%s" % obs["level"]
+        yield "sched-points:%s" % ("0" if not obs["points"] else "<=50" if obs["points"] <= 50 else "<=100" if obs["points"] <= 100 else ">100")
+        sa, sb = obs["solo"]["a"][0], obs["solo"]["b"][0]
+        yield "sched-b:" + ("raises" if sb[0] != "ok" else "ok")
+        if sa[0] == "ok" and sb[0] == "ok":
+            la, lb = len(_unspec(sa[1])), len(_unspec(sb[1]))
+            yield "sched-lengths:" + ("equal" if la == lb else "different")
     else:
         yield "cap-delta=%d" % case["delta"]
 
@@ -1134,6 +1481,7 @@ def corpus():
     for delta in (-1, 0, 1):
         yield {"kind": "cap", "delta": delta}
     yield from _fixed_raw()
+    yield from _fixed_sched()
 
 
 NESTED_ROW = [
@@ -1159,7 +1507,51 @@ def _huge_cases(rng, tier):
             yield _row_case(rng, [["ra", n, ["n"]], ["ra", n + 1, ["s", "61"]]])
 
 
+# ---- schedule cases ----------------------------------------------------------------------
+def _sched_case(row_a, ts_a, row_b, ts_b):
+    return {"kind": "sched", "a": {"ts": ts_a, "row": row_a}, "b": {"ts": ts_b, "row": row_b}}
+
+
+def _fixed_sched():
+    long_text = ["s", _spec(b"x" * 1000)]
+    mixed = [["i", 1], ["s", "61"], ["n"], ["f", 0x4004000000000000], ["y", "0001"], ["a", [["i", 1], ["a", [["i", 2], ["i", 3]]]]], ["m", [["6b", ["s", "76"]]]]]
+    other = [long_text, ["i", 2**64 - 1], ["i", -2**63], ["f", 0x7FF0000000000000], ["a", []], ["m", []]]
+    yield _sched_case(mixed, TS_DEFAULT, other, TS_DEFAULT + 1)            # payloads of different lengths
+    yield _sched_case(other, 1, mixed, 2**64 - 1)                           # ... and the roles swapped
+    yield _sched_case([], 0, [long_text], 2**63)                            # the empty row against a long one
+    yield _sched_case([["i", 1], ["i", 2]], 5, [["i", 3], ["i", 4]], 6)     # same length, different content and clock
+    yield _sched_case([["s", "61"]], 7, [["s", "61"]], 7)                   # identical rows
+    yield _sched_case(mixed, 9, [["i", 2**64]], 10)                         # the other thread's row is refused by packb
+    yield _sched_case([["i", -2**63 - 1]], 11, mixed, 12)                   # the preempted thread's row is refused
+    yield _sched_case(NESTED_ROW, TS_DEFAULT, [["ra", 300, ["i", 1]]], 3)   # every value kind against an array16
+
+
+def _random_sched(rng):
+    def row():
+        w = rng.choice([0, 1, 1, 2, 3, 4, 6])
+        out = [gen_tree(rng, 2) for _ in range(w)]
+        return [["n"] if _is_dt_form(t) else t for t in out]
+
+    a, b = row(), row()
+    r = rng.random()
+    if r < 0.25:
+        b = b + [_text_tree(rng, rng.choice([33, 256, 257, 1000]))]        # make the payload lengths differ for sure
+    elif r < 0.35:
+        a = a + [_bin_tree(rng, rng.choice([33, 256, 70000]))]
+    elif r < 0.40:
+        b = [list(t) for t in a]                                            # equal rows, different clocks
+    ts = lambda: rng.choice([0, 1, TS_DEFAULT, 2**63, 2**64 - 1]) if rng.random() < 0.3 else rng.getrandbits(rng.choice([8, 32, 61, 64]))  # noqa: E731
+    return _sched_case(a, ts(), b, ts())
+
+
 def generate(rng, tier):
+    yield from _generate_rows_raws(rng, tier)
+    # schedule cases last: the row / raw sequence of a given seed is what it was before they existed
+    for _ in range(40 if tier == "quick" else 1200):
+        yield _random_sched(rng)
+
+
+def _generate_rows_raws(rng, tier):
     rows = 1100 if tier == "quick" else 22000
     raws = 900 if tier == "quick" else 18000
     huge = list(_huge_cases(rng, tier))
@@ -1173,11 +1565,21 @@ def generate(rng, tier):
 
 
 def search(rng):
+    i = 0
     while True:
-        yield _row_case(rng, _random_row(rng))
+        i += 1
+        if i % 8 == 0:
+            yield _random_sched(rng)
+        else:
+            yield _row_case(rng, _random_row(rng))
 
 
 def shrink(case):
+    if case["kind"] == "sched":
+        for who in ("a", "b"):
+            for sub in shrink({"kind": "row", "ts": case[who]["ts"], "row": case[who]["row"]}):
+                yield dict(case, **{who: {"ts": sub["ts"], "row": sub["row"]}})
+        return
     if case["kind"] != "row":
         return
     row = case["row"]
